@@ -373,7 +373,35 @@ def k_same_shape_series(ctx, seed):
         del t, data, ts
 
 
-KINDS = {"same_shape_series": k_same_shape_series, "tm_wrong_type": k_tm_wrong_type, "tm": k_tm, "tm_short": k_tm_short, "sec_header": k_sec_header, "view_history": k_view_history}
+def k_defaults(ctx, seed):
+    """Telemetry built with defaulted arguments, one of them extended in place afterwards (tm.tm_data += ...): every later
+    packet built with defaults carries the documented defaults again (empty source data, APID 0, counters 0, version 0)."""
+    import random
+    tmm, sp, check_pus_crc, Service17Tm = _imp()
+    r = random.Random(f"tmdefaults/{seed}")
+    case = {"k": "defaults", "seed": seed}
+    ctx.case("tm_defaults", seed, sample=case)
+    for i in range(3):
+        sv, sb, ts = r.getrandbits(8), r.getrandbits(8), r.randbytes(r.choice((0, 7)))
+        ok, t = attempt(tmm.PusTm, service=sv, subservice=sb, timestamp=ts)
+        want = R.tm(0, 0, sv, sb, 0, 0, 0, ts, b"", version=0)
+        ok2, raw = attempt(lambda: bytes(t.pack())) if ok else (False, t)
+        if not ctx.check("tm.defaults", ok and ok2 and raw == want and bytes(t.tm_data) == b"", "defaulted_arguments_are_not_the_documented_defaults", "first" if i == 0 else "after_an_earlier_object_was_extended_in_place", dict(case, index=i),
+                         observed=raw if ok2 else repr(raw), expected=want):
+            return
+        extra = r.randbytes(r.randrange(1, 5))
+        how = r.choice(("iadd", "extend_if_mutable", "assign"))
+        if how == "iadd":
+            t.tm_data += extra
+        elif how == "extend_if_mutable" and isinstance(t.tm_data, bytearray):
+            t.tm_data.extend(extra)
+        else:
+            t.tm_data = bytes(t.tm_data) + extra
+        ok3, raw3 = attempt(lambda: bytes(t.pack()))
+        ctx.check("tm.defaults", ok3 and raw3 == R.tm(0, 0, sv, sb, 0, 0, 0, ts, extra, version=0), "octets_after_extending_the_default_data", how, dict(case, index=i))
+
+
+KINDS = {"defaults": k_defaults, "same_shape_series": k_same_shape_series, "tm_wrong_type": k_tm_wrong_type, "tm": k_tm, "tm_short": k_tm_short, "sec_header": k_sec_header, "view_history": k_view_history}
 
 
 def selftest(ctx):
@@ -462,6 +490,8 @@ def run(ctx):
              model_fed=r.random() < 0.5)
     for j in range(ctx.n(1500, 150_000)):
         k_view_history(ctx, ctx.seed * 1_000_003 + ctx.shard[0] * 100_003 + j)
+    for j in range(ctx.n(60, 6_000)):
+        k_defaults(ctx, ctx.seed * 1_000_003 + ctx.shard[0] * 100_003 + j)
     for j in range(ctx.n(120, 12_000)):
         k_same_shape_series(ctx, ctx.seed * 1_000_003 + ctx.shard[0] * 100_003 + j)
     # telemetry whose running CRC is exactly 0x0000 / 0xFFFF after the primary header, or after both headers
